@@ -24,6 +24,24 @@ func Root() string {
 	return "/verif"
 }
 
+// RepoDir is the checkout under test (/repo unless VERIF_REPO redirects a
+// development run to a scratch copy).
+func RepoDir() string {
+	if r := os.Getenv("VERIF_REPO"); r != "" {
+		return r
+	}
+	return "/repo"
+}
+
+// GoEnv is the environment for go tooling started by a check.
+func GoEnv() []string {
+	e := append(os.Environ(), "GOPROXY=off", "GOSUMDB=off", "GOTOOLCHAIN=local")
+	if !strings.Contains(os.Getenv("GOFLAGS"), "-modfile") {
+		e = append(e, "GOFLAGS=-mod=mod")
+	}
+	return e
+}
+
 // Tier returns "quick" or "thorough" (VERIF_TIER).
 func Tier() string {
 	if os.Getenv("VERIF_TIER") == "thorough" {
